@@ -28,6 +28,8 @@ class Proxy:
     def writerow(self, row):
         if mode == "row" and self.k == n:
             os.kill(os.getpid(), signal.SIGKILL)
+        if mode == "raise_row" and self.k == n:
+            raise OSError(28, "No space left on device")
         self.k += 1
         return self.w.writerow(row)
 @contextlib.contextmanager
@@ -122,10 +124,16 @@ def run(r: core.Runner):
     n_inputs = core.tier_n(r.tier, 2, 12)
     stats = {"traces": 0, "kill_runs": 0, "reruns": 0, "existing_output_runs": 0}
     samples = []
+    items = []
     for step in ("update_evidence", "andromeda2pin"):
         for k in range(n_inputs):
             d = tempfile.mkdtemp(prefix=f"c16_{step}_", dir=core.scratch())
             argv, out = step_inputs(step, d, rng)
+            items.append((step, d, argv, out))
+
+    def process(item):
+        step, d, argv, out = item
+        if True:
             tmp = out + ".tmp"
             # uninterrupted reference run, traced
             tr = os.path.join(d, "trace.txt")
@@ -158,6 +166,10 @@ def run(r: core.Runner):
             points = [("row", i) for i in range(0, n_rows + 1)] + [("before_rename", 0), ("after_rename", 0)]
             if r.tier != "thorough" and len(points) > 8:
                 points = points[:3] + [points[len(points) // 2]] + points[-3:]
+            # an interruption that unwinds the stack (a write error) instead of killing the process: with-blocks close the
+            # temporary file, finally-clauses run
+            rpts = [("raise_row", i) for i in range(0, n_rows + 1)]
+            points += rpts if r.tier == "thorough" else [rpts[0], rpts[len(rpts) // 2], rpts[-1]]
             for mode, i in points:
                 for p in (out, tmp):
                     if os.path.exists(p):
@@ -166,7 +178,7 @@ def run(r: core.Runner):
                 stats["kill_runs"] += 1
                 state = {"final": open(out, "rb").read() if os.path.exists(out) else None,
                          "tmp": open(tmp, "rb").read() if os.path.exists(tmp) else None}
-                killed = rc == -9
+                killed = rc == -9 or (mode == "raise_row" and rc != 0)
                 bad = None
                 if state["final"] is not None and state["final"] != ref:
                     bad = "final path holds a partially written file"
@@ -189,6 +201,9 @@ def run(r: core.Runner):
                                     f"{step}: re-run after a crash at {mode} {i} does not reproduce the uninterrupted output")
                         return
             shutil.rmtree(d, ignore_errors=True)
+    import concurrent.futures
+    with concurrent.futures.ThreadPoolExecutor(max_workers=8) as ex:
+        list(ex.map(process, items))
     r.evaluations = stats["kill_runs"] + stats["traces"] + stats["existing_output_runs"]
     r.traces = stats["traces"] + stats["kill_runs"]
     for kp in range(stats["kill_runs"]):
